@@ -144,6 +144,20 @@ impl<'a> P<'a> {
                         }
                         self.out.push('}');
                     }
+                    Some(b'|') => {
+                        // bitflags: `A | B | C`
+                        let mut all = name.clone();
+                        while self.peek() == Some(b'|') {
+                            self.i += 1;
+                            self.ws();
+                            let st = self.i;
+                            while let Some(c) = self.peek() { if c.is_ascii_alphanumeric() || c == b'_' { self.i += 1; } else { break; } }
+                            all.push('|');
+                            all.push_str(std::str::from_utf8(&self.b[st..self.i]).unwrap());
+                            self.ws();
+                        }
+                        jstr(&mut self.out, &format!("@{}", all));
+                    }
                     _ => {
                         match name.as_str() {
                             "None" => self.out.push_str("null"),
